@@ -42,7 +42,11 @@ func GenProgram(seed int64) string {
 			case "a.b/c-d":
 				sb.WriteString("\t_ \"a.b/c-d\"\n")
 			default:
-				switch g.r.Intn(4) {
+				switch g.r.Intn(5) {
+				case 4: // a legal non-ASCII import name
+					n := []string{"π", "größe", "é", "日本"}[g.r.Intn(4)]
+					fmt.Fprintf(&sb, "\t%s %q\n", n, p)
+					g.imports[n] = true
 				case 0: // explicit name equal to the package's own name
 					fmt.Fprintf(&sb, "\t%s %q\n", p, p)
 					g.imports[p] = true
